@@ -1,13 +1,16 @@
 /-!
-# C12 — which positional arguments of an operator call are inputs (core Lean only)
+# C12 — which arguments of an operator call are inputs, and at which position (core Lean only)
 
-Restates `onnxscript/_internal/param_manipulation.py: separate_input_attributes_from_arguments` for calls with
-positional arguments only (the form in which literals reach `cast_inputs`): the loop over `op_signature.params`
-(inputs first, then attributes, as `OpSignature.from_op_schema` builds them), the variadic input exhausting the
-remaining arguments, positional arguments beyond the inputs becoming attributes in schema order, the
-"Required input … was not provided" error, and the `allow_extra_args=False` check used by the graph builder
-(`BuilderBase._partition_inputs_attributes`); the converter (`Converter._translate_call_expr`) passes the default
-`allow_extra_args=True`, i.e. silently drops surplus positional arguments.
+Restates `onnxscript/_internal/param_manipulation.py: separate_input_attributes_from_arguments` as of /repo commit
+b7afd5e: the loop over `op_signature.params` (inputs first, then attributes, as `OpSignature.from_op_schema` builds
+them); positional arguments, then arguments given by keyword; the variadic input exhausting the remaining positional
+arguments; positional arguments beyond the inputs becoming attributes in schema order; an omitted optional input
+leaving a `None` placeholder so that a later input given by keyword keeps its own position (`op.Clip(x, max=hi)` is
+`Clip(x, None, hi)`), placeholders remaining at the end being dropped; the "Required input … was not provided"
+error; and the `allow_extra_args=False` check used by the graph builder
+(`BuilderBase._partition_inputs_attributes`) — the converter (`Converter._translate_call_expr`) passes the default
+`allow_extra_args=True`, i.e. silently drops surplus positional arguments.  (`fill_defaults=False` as both callers
+pass it; unknown keywords are not modelled.)
 -/
 namespace OV.Call
 
@@ -19,36 +22,52 @@ inductive Param
 inductive PErr | missing | tooMany
   deriving DecidableEq, Repr
 
-/-- Result: the argument indices taken as inputs (in order) and the `(parameter index, argument index)` pairs
-taken as attributes. -/
+/-- Where an argument came from: the `i`-th positional argument, or the keyword argument naming parameter `i`. -/
+inductive Src
+  | pos (i : Nat)
+  | kw (i : Nat)
+  deriving DecidableEq, Repr
+
+/-- Loop state: `onnx_inputs` (`none` = the `None` placeholder of an omitted optional input), `onnx_attributes` as
+`(parameter index, source)`, and `trailing_placeholders`. -/
 structure Sep where
-  inputs : List Nat
-  attrs : List (Nat × Nat)
+  inputs : List (Option Src)
+  attrs : List (Nat × Src)
+  pending : Nat
   deriving DecidableEq, Repr
 
 /-- The loop body over `enumerate(op_signature.params)` from parameter index `i` on; `n` is `len(args)` as the loop
-sees it (it becomes 0 after a variadic input: `args = []`). -/
-def sepFrom : List Param → Nat → Nat → Sep → Except PErr Sep
+sees it (it becomes 0 after a variadic input: `args = []`); `kws` are the parameter indices given by keyword. -/
+def sepFrom (kws : List Nat) : List Param → Nat → Nat → Sep → Except PErr Sep
   | [], _, _, acc => .ok acc
   | .input true _ :: rest, i, n, acc =>
-    sepFrom rest (i + 1) 0 { acc with inputs := acc.inputs ++ (List.range (n - i)).map (· + i) }
+    sepFrom kws rest (i + 1) 0
+      { acc with inputs := acc.inputs ++ (List.range (n - i)).map (fun k => some (.pos (k + i))),
+                 pending := if n - i = 0 then acc.pending else 0 }
   | .input false req :: rest, i, n, acc =>
-    if i < n then sepFrom rest (i + 1) n { acc with inputs := acc.inputs ++ [i] }
+    if i < n then sepFrom kws rest (i + 1) n { acc with inputs := acc.inputs ++ [some (.pos i)], pending := 0 }
+    else if kws.contains i then
+      sepFrom kws rest (i + 1) n { acc with inputs := acc.inputs ++ [some (.kw i)], pending := 0 }
     else if req then .error .missing
-    else sepFrom rest (i + 1) n acc
+    else sepFrom kws rest (i + 1) n { acc with inputs := acc.inputs ++ [none], pending := acc.pending + 1 }
   | .attr req dflt :: rest, i, n, acc =>
-    if i < n then sepFrom rest (i + 1) n { acc with attrs := acc.attrs ++ [(i, i)] }
-    else if dflt then sepFrom rest (i + 1) n acc
+    if i < n then sepFrom kws rest (i + 1) n { acc with attrs := acc.attrs ++ [(i, .pos i)] }
+    else if kws.contains i then sepFrom kws rest (i + 1) n { acc with attrs := acc.attrs ++ [(i, .kw i)] }
+    else if dflt then sepFrom kws rest (i + 1) n acc
     else if req then .error .missing
-    else sepFrom rest (i + 1) n acc
+    else sepFrom kws rest (i + 1) n acc
 
 def hasVariadic (ps : List Param) : Bool :=
   ps.any (fun p => match p with | .input true _ => true | _ => false)
 
-/-- `separate_input_attributes_from_arguments(op_signature, args, {}, fill_defaults=False, allow_extra_args=…)`. -/
-def separate (ps : List Param) (n : Nat) (allowExtra : Bool) : Except PErr Sep :=
-  match sepFrom ps 0 n ⟨[], []⟩ with
+/-- `separate_input_attributes_from_arguments(op_signature, args, kwargs, fill_defaults=False, allow_extra_args=…)`:
+the inputs with the trailing placeholders dropped, and the attributes. -/
+def separate (ps : List Param) (n : Nat) (kws : List Nat) (allowExtra : Bool) :
+    Except PErr (List (Option Src) × List (Nat × Src)) :=
+  match sepFrom kws ps 0 n ⟨[], [], 0⟩ with
   | .error e => .error e
-  | .ok r => if !allowExtra && !hasVariadic ps && decide (ps.length < n) then .error .tooMany else .ok r
+  | .ok r =>
+    if !allowExtra && !hasVariadic ps && decide (ps.length < n) then .error .tooMany
+    else .ok (r.inputs.take (r.inputs.length - r.pending), r.attrs)
 
 end OV.Call
